@@ -9,7 +9,16 @@ import DclabModel.DriveUtil
     export <filtered> <logs> <tables> <skipChecks> <cs> <csw> <fixed> <prefix> <mask bits|-> <feat,feat,…|->
         → `ok count=<n> rid=<0|1> ev=<name>:<t,…>;… cfg=<sec>:<key>=<v>;… logs=<name>=<tok>;… tables=…`
           (events, cfg, logs and tables sorted by name) or `err`
+        (`None` as feature list = `features=None`: the list given by `innate <feat,…>`)
+    stale <file> <feat|-> <t,…|->            a file in the output directory (left by an earlier export)
+    exportat <override> <file> <filtered> … (as `export`)
+        → the `export` answer for the file now at <file> + ` dir=<name,…>` (sorted directory
+          listing), `err:exists` (OSError, file exists and no override) or `err`
+    normfeats <name,…|->                     → `sorted(set(names))`
     tsv <filtered> <mask bits|-> <feat,…>    → `ok hdr=<f,…> rows=<t,…>;…` or `err`
+    label <feat> <token>                     `dfn.get_feature_label(feat)`
+    tsvtext <filtered> <mask bits|-> <feat,…> → `ok hdr=<f,…> lab=<token,…> rows=<t,…>;…` read from the
+                                               modelled text (last two comment lines, data lines) or `err`
     stacks <fast|slow|lazy> <cs> <i,i,…|->   → `<t,…>;<t,…>;…` (data[i] = i)
     write <cs> <dset|-> <data|->             → `<t,…>` or `err:value`
 -/
@@ -36,6 +45,9 @@ def bit (s : String) : Bool := s == "1"
 structure D where
   src : Src Nat := { n := 0, feats := [], hdf5 := false, cfg := [], logs := [], tables := [] }
   sections : List String := []
+  innate : List String := []
+  labels : List (String × String) := []
+  dir : Dir Nat := []
 
 def sortStr (xs : List String) : List String := isort (fun a b => decide (a ≤ b)) xs
 
@@ -47,12 +59,15 @@ def showFile (fl : File Nat) : String :=
   s!"ok count={fl.eventCount} rid={if fl.derivedRunId then 1 else 0} ev={joinWith ";" ev} " ++
     s!"cfg={joinWith ";" cfg} logs={joinWith ";" logs} tables={joinWith ";" tabs}"
 
+def reqOf (d : D) (feats : String) : List String :=
+  reqFeats (if feats = "None" then none else some (parseNames feats)) d.innate
+
 def handle (d : D) (line : String) : D × String :=
   match words line with
   | ["src", n, h] =>
     match n.toNat? with
     | some n => ({ d with src := { n := n, feats := [], hdf5 := bit h, cfg := [], logs := [],
-                                   tables := [] } }, "ok")
+                                   tables := [] }, innate := [], dir := [], labels := [] }, "ok")
     | none => (d, "bad-op")
   | ["sections", s] => ({ d with sections := parseNames s }, "ok")
   | ["feat", name, kind, sl, rows] =>
@@ -71,15 +86,52 @@ def handle (d : D) (line : String) : D × String :=
                         skipChecks := bit skip, cs := cs, csw := csw,
                         cfgSections := d.sections, fixed := bit fixed }
       let m := if mask = "-" then [] else parseBools mask
-      match exportHdf5 d.src o m (parseNames feats) with
+      match exportHdf5 d.src o m (reqOf d feats) with
       | some fl => (d, showFile fl)
       | none => (d, "err")
     | _, _ => (d, "bad-op")
+  | ["innate", fs] => ({ d with innate := parseNames fs }, "ok")
+  | ["stale", file, feat, rows] =>
+    match parseList rows with
+    | some r =>
+      let old := (dirGet d.dir file).getD emptyFile
+      let fl := if feat = "-" then old else { old with events := setEv old.events feat r }
+      ({ d with dir := dirSet d.dir file fl }, "ok")
+    | none => (d, "bad-op")
+  | ["exportat", ovr, file, filt, logs, tabs, skip, cs, csw, fixed, pfx, mask, feats] =>
+    match cs.toNat?, csw.toNat? with
+    | some cs, some csw =>
+      let o : Opts := { filtered := bit filt, logs := bit logs, tables := bit tabs, pfx := pfx,
+                        skipChecks := bit skip, cs := cs, csw := csw,
+                        cfgSections := d.sections, fixed := bit fixed }
+      let m := if mask = "-" then [] else parseBools mask
+      match exportAt d.dir file (bit ovr) d.src o m (reqOf d feats) with
+      | .done d' =>
+        match dirGet d' file with
+        | some fl => (d, showFile fl ++ " dir=" ++ joinWith "," (sortStr (d'.map (·.1))))
+        | none => (d, "err")
+      | .exists_ => (d, "err:exists")
+      | .failed => (d, "err")
+    | _, _ => (d, "bad-op")
+  | ["normfeats", fs] =>
+    let r := normFeats (parseNames fs)
+    (d, if r.isEmpty then "-" else joinWith "," r)
   | ["tsv", filt, mask, feats] =>
     let m := if mask = "-" then [] else parseBools mask
     match tsvRows d.src (bit filt) m (parseNames feats) with
     | some (hdr, rows) =>
       (d, s!"ok hdr={joinWith "," hdr} rows={joinWith ";" (rows.map showList)}")
+    | none => (d, "err")
+  | ["label", f, t] => ({ d with labels := d.labels ++ [(f, t)] }, "ok")
+  | ["tsvtext", filt, mask, feats] =>
+    let m := if mask = "-" then [] else parseBools mask
+    let lab := fun f => ((d.labels.find? (·.1 = f)).map (·.2)).getD "?"
+    match tsvText (fun n : Nat => toString n) lab [["meta"], []] d.src (bit filt) m (parseNames feats) with
+    | some txt =>
+      let cs := commentCells txt
+      let hdr := cs.getD (cs.length - 2) []
+      let lbl := cs.getD (cs.length - 1) []
+      (d, s!"ok hdr={joinWith "," hdr} lab={joinWith "," lbl} rows={joinWith ";" ((dataCells txt).map (joinWith ","))}")
     | none => (d, "err")
   | ["stacks", kind, cs, idx] =>
     match cs.toNat?, parseList idx with
